@@ -208,7 +208,7 @@ func (ft *ftr) binop(steps *[]step, ins *ssa.BinOp) error {
 			cond := fx("%s = 0", y.e)
 			*steps = append(*steps, func(next node) node { return &nGuard{cond: cond, why: "integer divide by zero", next: next} })
 		}
-		e = fx("%s "+ins.Op.String()+" %s", x.e, y.e)
+		e = fx("%s "+strings.ReplaceAll(ins.Op.String(), "%", "%%")+" %s", x.e, y.e)
 	case token.AND:
 		e = fx("%s &&& %s", x.e, y.e)
 	case token.OR:
@@ -300,6 +300,21 @@ func (ft *ftr) unop(steps *[]step, ins *ssa.UnOp, cur map[*cell]ex) error {
 		if !ok {
 			return ft.refuse(ins, "load through a pointer that is neither a parameter, a local variable nor a package-level variable")
 		}
+		if _, isStruct := ins.Type().Underlying().(*types.Struct); isStruct {
+			// snapshot of a local struct variable: its leaves as they are now
+			snap := map[string]ex{}
+			for _, c := range ft.cells {
+				if c.root == r && len(c.path) > len(path) && pathKey(c.path[:len(path)]) == pathKey(path) {
+					e, ok := cur[c]
+					if !ok {
+						return ft.refuse(ins, "internal: no current value for cell %s", c.name)
+					}
+					snap[pathKey(c.path[len(path):])] = e
+				}
+			}
+			ft.env[ins] = ft.snapStruct(ins.Type(), nil, snap)
+			return nil
+		}
 		c, err := ft.cellAt(r, path)
 		if err != nil {
 			return ft.refuse(ins, "%v", err)
@@ -325,6 +340,28 @@ func (ft *ftr) unop(steps *[]step, ins *ssa.UnOp, cur map[*cell]ex) error {
 		return nil
 	}
 	return ft.refuse(ins, "unary operator %s is outside the grammar", ins.Op)
+}
+
+// snapStruct: a struct value made of the current values of the cells of a local variable.
+func (ft *ftr) snapStruct(t types.Type, rel []int, snap map[string]ex) value {
+	v := value{k: kStruct, ty: t}
+	v.sfield = func(i int) (value, error) {
+		st := t.Underlying().(*types.Struct)
+		if i >= st.NumFields() {
+			return value{}, fmt.Errorf("field index %d out of range for %s", i, t)
+		}
+		ftyp := st.Field(i).Type()
+		p := append(append([]int{}, rel...), i)
+		if _, ok := ftyp.Underlying().(*types.Struct); ok {
+			return ft.snapStruct(ftyp, p, snap), nil
+		}
+		e, ok := snap[pathKey(p)]
+		if !ok {
+			return value{}, fmt.Errorf("field %s of a loaded struct is not a scalar cell", st.Field(i).Name())
+		}
+		return value{k: kScalar, e: e, ty: ftyp}, nil
+	}
+	return v
 }
 
 // loadGlobal: reading a package-level variable makes it an explicit parameter g_<pkg>_<Name> of the generated definition
